@@ -315,11 +315,20 @@ WalkWhy(e) ==
        IF e.sec # "Q" /\ \E i, j \in 1..Len(orig) : i # j /\ orig[i].ttl = orig[j].ttl THEN "-"     \* identities not unique: not a C11 scenario
        ELSE YieldsWhy(e, 1, e.pre, 1..Len(orig), {}, a0, orig)
 
+\* C09: the EDNS data as seen through the object's own reader equal the options in the bytes
+EdnsReadWhy(e) ==
+  LET m == DecodeT(e.post) IN
+  IF e.edns.res # "ok" THEN "the EDNS options read through the object: reader panics"
+  ELSE LET want == IF HasOpt(m) THEN LET o == OptOf(m) IN OptExt(e.post, o.name_end + 10, o.next, <<>>) ELSE <<>> IN
+       IF Len(e.edns.opts) # Len(want) \/ \E i \in 1..Len(want) : e.edns.opts[i] # <<want[i].off, want[i].next>>
+       THEN "the EDNS options read through the object differ from the options in the bytes"
+       ELSE ""
+
 \* C08 + C09 + C10 for one recorded step; "-" when the step starts from bytes that already are unacceptable
 StepWhy(e, strict) ==
   IF e.res = "panic" THEN "panic in " \o e.o.op
   ELSE IF ~Structural(e.pre) THEN "-"
   ELSE LET s == StateWhy(e.view, e.post, e.reparse) IN
        IF s # "" THEN "after " \o e.o.op \o ": " \o s
-       ELSE EffectWhy(e, strict)
+       ELSE LET w == EffectWhy(e, strict) IN IF w # "" THEN w ELSE EdnsReadWhy(e)
 ====
